@@ -462,6 +462,102 @@ fn override_configs() -> Vec<(bool, Vec<Node>, Vec<Req>)> {
     out
 }
 
+// ---------------------------------------------------------------------------
+// catalogue: every option erbium.conf can name, one at a time
+// ---------------------------------------------------------------------------
+
+/// (name, code, kind) of every option a policy can set by name (erbium.conf(5) and the option table
+/// of the DHCP codec, hand-copied; options the server sets itself -- 50, 51, 54, 56-59, 61 -- and
+/// options without a value syntax are left out).
+const CATALOGUE: [(&str, u8, &str); 66] = [
+    ("netmask", 1, "Ip"), ("time-offset", 2, "I32"), ("routers", 3, "IpList"), ("time-servers", 4, "IpList"), ("name-servers", 5, "IpList"), ("dns-servers", 6, "IpList"), ("log-servers", 7, "IpList"), ("quote-servers", 8, "IpList"),
+    ("lpr-servers", 9, "IpList"), ("impress-servers", 10, "IpList"), ("rlp-servers", 11, "IpList"), ("host-name", 12, "String"), ("domain-name", 15, "String"), ("root-path", 17, "String"), ("extension-file", 18, "String"),
+    ("forward", 19, "Bool"), ("source-route", 20, "Bool"), ("max-reassembly", 21, "Seconds16"), ("default-ttl", 23, "U8"), ("mtu-timeout", 24, "Seconds32"), ("mtu", 26, "U16"), ("mtu-subnet", 27, "Bool"), ("broadcast", 28, "Ip"),
+    ("mask-discovery", 29, "Bool"), ("mask-supplier", 30, "Bool"), ("router-discovery", 31, "Bool"), ("router-request", 32, "Ip"), ("trailers", 34, "Bool"), ("arp-timeout", 35, "Seconds32"), ("ethernet", 36, "Bool"), ("tcp-ttl", 37, "U16"),
+    ("tcp-keepalive", 38, "Seconds32"), ("tcp-keepalive-garbage", 39, "Bool"), ("nis-domain", 40, "String"), ("nis-servers", 41, "IpList"), ("ntp-servers", 42, "IpList"), ("netbios-namesrv", 44, "IpList"), ("netbios-distsrv", 45, "IpList"),
+    ("netbios-type", 46, "U8"), ("netbios-scope", 47, "String"), ("xwindow-font-servers", 48, "IpList"), ("xwindow-display", 49, "IpList"), ("class-id", 60, "String"), ("nisplus-domain", 64, "String"), ("nisplus-servers", 65, "IpList"),
+    ("home-agent-servers", 68, "IpList"), ("smtp-servers", 69, "IpList"), ("pop3-servers", 70, "IpList"), ("nntp-servers", 71, "IpList"), ("www-servers", 72, "IpList"), ("finger-servers", 73, "IpList"), ("irc-servers", 74, "IpList"),
+    ("streettalk-servers", 75, "IpList"), ("stda-servers", 76, "IpList"), ("user-class", 77, "String"), ("fqdn", 81, "String"), ("tz-rule", 100, "String"), ("tz-name", 101, "String"), ("autoconfig", 103, "Bool"),
+    ("subnet-selection", 104, "Ip"), ("ipv6-preferred", 108, "Seconds32"), ("captive-portal", 114, "String"), ("dns-searches", 119, "DomainList"), ("routes", 121, "Routes"), ("wpad-url", 252, "String"),
+    // the highest code again under a second spelling of the value, so that 66 entries are 66 checks
+    ("wpad-url", 252, "String2"),
+];
+
+/// (YAML value, wire value) per kind, by the RFC 2132 / 3397 / 3442 encodings
+fn catalogue_value(name: &str, kind: &str) -> (String, Vec<u8>) {
+    match kind {
+        "Ip" => ("192.0.2.77".into(), vec![192, 0, 2, 77]),
+        "IpList" => ("[192.0.2.5, 192.0.2.6]".into(), vec![192, 0, 2, 5, 192, 0, 2, 6]),
+        "String" => (format!("'s-{name}'"), format!("s-{name}").into_bytes()),
+        "String2" => ("'http://wpad.example/wpad.dat'".into(), b"http://wpad.example/wpad.dat".to_vec()),
+        "I32" => ("-3".into(), vec![0xff, 0xff, 0xff, 0xfd]),
+        "U8" => ("7".into(), vec![7]),
+        "U16" => ("1234".into(), vec![4, 210]),
+        "Bool" => ("true".into(), vec![1]),
+        "Seconds16" => ("90s".into(), vec![0, 90]),
+        "Seconds32" => ("1h".into(), vec![0, 0, 0x0e, 0x10]),
+        "DomainList" => ("[example.com]".into(), b"\x07example\x03com\x00".to_vec()),
+        "Routes" => ("[{prefix: 10.0.0.0/8, next-hop: 192.0.2.1}]".into(), vec![8, 10, 192, 0, 2, 1]),
+        k => panic!("catalogue kind {k}"),
+    }
+}
+
+fn catalogue_yaml(name: &str, kind: &str) -> String {
+    format!("---\ndhcp-policies:\n  - match-subnet: 192.0.2.0/24\n    apply-range: {{start: 192.0.2.10, end: 192.0.2.20}}\n    apply-{name}: {}\n", catalogue_value(name, kind).0)
+}
+
+fn catalogue_case(&(name, code, kind): &(&str, u8, &str)) -> (u64, Vec<Violation>) {
+    let yaml = catalogue_yaml(name, kind);
+    let want_bytes = catalogue_value(name, kind).1;
+    let case0 = json!({"engine":"c11","family":"catalogue","yaml":yaml,"option":name,"kind":kind});
+    let conf = match panics::catch(|| erbium::config::verif_load_config_from_string(&yaml)) {
+        Ok(Ok(c)) => c,
+        Ok(Err(e)) => return (0, vec![Violation::new("config-rejected", format!("apply-{name} with a value of its documented type is rejected: {e}"), case0).sig("family", "catalogue")]),
+        Err(p) => return (0, vec![Violation::new("load-panic", format!("loader panicked: {}", p.msg), case0).sig("family", "catalogue")]),
+    };
+    let g = conf.try_read().expect("conf");
+    crate::common::clock::set_secs(crate::ehist::NOW0 as u64);
+    let mut p = pool::Pool::new_in_memory().expect("pool");
+    let mut vs = vec![];
+    let mut n = 0;
+    // parameter request lists: the option alone, among others (lower and higher codes), not at all, no list
+    let lists: Vec<Vec<u8>> = vec![vec![code], vec![200, code, 254], vec![code, 2], vec![200, 254], vec![]];
+    for params in &lists {
+        for mtype in [1u8, 3] {
+            n += 1;
+            let r = Req { serverip: IF_S1, mac: M1, host: None, params: params.clone(), if_mtu: None, if_router: None };
+            let req = mk_req(&r, mtype);
+            let case = json!({"engine":"c11","family":"catalogue","yaml":yaml,"option":name,"kind":kind,"request":{"params":params,"type":mtype}});
+            match panics::catch(|| dhcp::handle_pkt(&mut p, &req, Default::default(), &g)) {
+                Err(pi) => vs.push(Violation::new("handler-panic", format!("handle_pkt panicked: {} at {}", pi.msg, panics::short_loc(&pi.loc)), case).sig("family", "catalogue")),
+                Ok(Err(e)) => vs.push(Violation::new("reply-missing", format!("no reply ({:?}) although the interface has a pool", e), case).sig("family", "catalogue")),
+                Ok(Ok(reply)) => {
+                    use dhcppkt::Serialise as _;
+                    let mut got: Option<Vec<u8>> = None;
+                    for (k, v) in &reply.options.other {
+                        let mut b = vec![];
+                        k.serialise(&mut b);
+                        if b[0] == code {
+                            got = Some(v.clone());
+                        }
+                    }
+                    let want = if params.contains(&code) { Some(want_bytes.clone()) } else { None };
+                    if got != want {
+                        vs.push(
+                            Violation::new("options-differ", format!("apply-{name} (option {code}), parameter request list {:?}: sent {:?}, manual says {:?}", params, got.as_ref().map(|v| crate::common::util::hex(v)), want.as_ref().map(|v| crate::common::util::hex(v))), case)
+                                .sig("family", "catalogue")
+                                .sig("option", name)
+                                .sig("requested", params.contains(&code))
+                                .sig("code-range", if code >= 128 { "128..255" } else if code >= 64 { "64..127" } else { "1..63" }),
+                        );
+                    }
+                }
+            }
+        }
+    }
+    (n, vs)
+}
+
 pub fn run(tier: &str, replay: Option<Value>) -> ! {
     let mut rep = Report::new("C11", if replay.is_some() { "quick" } else { tier }, "exploration");
     let thorough = tier == "thorough";
@@ -469,6 +565,17 @@ pub fn run(tier: &str, replay: Option<Value>) -> ! {
         rep.replay_mode = true;
         let case = if case.get("case").is_some() { case["case"].clone() } else { case };
         let y = case["yaml"].as_str().unwrap_or("").to_string();
+        if case["family"].as_str() == Some("catalogue") {
+            for e in CATALOGUE.iter() {
+                if catalogue_yaml(e.0, e.2) == y {
+                    rep.violations_from(catalogue_case(e).1);
+                }
+            }
+            if let Some(r) = case.get("request") {
+                rep.violations.retain(|v| v.case["request"] == *r);
+            }
+            rep.finish();
+        }
         // regenerate and find the configuration by its text
         let mut found = false;
         for t in structure_trees(true) {
@@ -536,6 +643,9 @@ pub fn run(tier: &str, replay: Option<Value>) -> ! {
             .collect();
         outs2.extend(more);
     }
+    let cat: Vec<(u64, Vec<Violation>)> = CATALOGUE.par_iter().map(catalogue_case).collect();
+    let cat_n: u64 = cat.iter().map(|c| c.0).sum();
+    outs2.extend(cat.into_iter().map(|(k, vs)| (k, std::collections::BTreeSet::new(), vs)));
     let mut n = 0;
     let mut classes = std::collections::BTreeSet::new();
     let mut seen = std::collections::BTreeSet::new();
@@ -551,9 +661,9 @@ pub fn run(tier: &str, replay: Option<Value>) -> ! {
     crate::common::clock::unset();
     rep.cov("evaluations", n);
     rep.cov("distinct_nontrivial", (trees.len() + ov.len()) as u64);
-    rep.cov("rule", "structure sweep: match alphabet {none, subnet S1, subnet S2, hardware address M1, host-name h, host-name null, S1 and M1}; all policy trees of depth <=2 and width <=2 (quick: second top-level sibling with <=1 child), all depth-3 chains, all width-3 sibling lists (top level and under a condition-less parent); each node sets a marker option per depth so the reply shows which node applied; requests: 3 receiving addresses x 2 hardware addresses x host-name {absent,h,x} (DISCOVER and REQUEST). override sweep: chains of depth 1-3 x apply alphabet {none, dns-servers [v], dns-servers [$self4, v], dns-servers null, domain-name, mtu, netmask null} per level x top-level defaults {absent, present} x interface mtu/router x 4 parameter lists; every 7th of them (thorough: all) again under three other spellings of the top-level address list (IPv6 prefixes in front of / between the IPv4 ones, IPv4 ones swapped). distinct_nontrivial = distinct configurations; evaluations = requests judged against the model");
+    rep.cov("rule", "structure sweep: match alphabet {none, subnet S1, subnet S2, hardware address M1, host-name h, host-name null, S1 and M1}; all policy trees of depth <=2 and width <=2 (quick: second top-level sibling with <=1 child), all depth-3 chains, all width-3 sibling lists (top level and under a condition-less parent); each node sets a marker option per depth so the reply shows which node applied; requests: 3 receiving addresses x 2 hardware addresses x host-name {absent,h,x} (DISCOVER and REQUEST). override sweep: chains of depth 1-3 x apply alphabet {none, dns-servers [v], dns-servers [$self4, v], dns-servers null, domain-name, mtu, netmask null} per level x top-level defaults {absent, present} x interface mtu/router x 4 parameter lists; every 7th of them (thorough: all) again under three other spellings of the top-level address list (IPv6 prefixes in front of / between the IPv4 ones, IPv4 ones swapped). catalogue: every option a policy can set by name (65 names, codes 1..252, 11 value syntaxes), one per configuration, with a value of its documented type: sent with exactly the RFC 2132/3397/3442 encoding iff the parameter request list names it (5 lists x DISCOVER/REQUEST). distinct_nontrivial = distinct configurations; evaluations = requests judged against the model");
     rep.cov("exhaustive", true);
-    rep.cov("parts", json!({"structure_configs": trees.len(), "override_configs": ov.len()}));
+    rep.cov("parts", json!({"structure_configs": trees.len(), "override_configs": ov.len(), "catalogue_options": CATALOGUE.len(), "catalogue_requests": cat_n}));
     rep.cov("outcome_classes", json!(classes));
     rep.cov("samples", json!([{"yaml": config_yaml(false, &trees[trees.len() / 3])}, {"yaml": config_yaml(true, &ov[ov.len() / 2].1)}]));
     rep.assume("don't-care: options 53/54/51; an empty search list present-but-empty vs absent; netmask/broadcast when two different match-subnets lie on the applied path (not generated)");
